@@ -6,7 +6,7 @@ from vlib.runner import Spec, Suite
 HARNESS = ("h_async", ["h_async.cpp"], {})
 
 CHILD_KINDS = "aAsSfFrRdDu"
-START_OPS = ("detach", "start", "fut", "fcoro", "pool", "join", "startp")
+START_OPS = ("detach", "start", "fut", "fcoro", "pool", "join", "startp", "startpm", "startop")
 
 
 def parse_line(line):
@@ -92,7 +92,7 @@ def gen_case(rng, deep=False):
     def use(i, bound):
         """emit one op consuming the unstarted/absent instance i (its subtree awaits only ext < bound)"""
         nonlocal joins
-        modes = ["detach", "start", "start", "fut", "pool", "drop", "join"]
+        modes = ["detach", "start", "start", "fut", "pool", "drop", "join", "startop", "startop"]
         if bound == next_ and next_ > 0:
             pass
         m = rng.choice(modes)
@@ -116,7 +116,7 @@ def gen_case(rng, deep=False):
             i = g.script(0, k, deep)
             if rng.random() < 0.3:
                 ops.append("new %d" % i)
-            ops.append("startp %d %d" % (i, k))
+            ops.append("%s %d %d" % (rng.choice(["startp", "startpm"]), i, k))
             if k in claimed:
                 # stays unstarted: sometimes start it another way, sometimes leave it to `end`
                 if rng.random() < 0.6:
@@ -265,6 +265,8 @@ class AsyncSuite(Suite):
         ext_out = {}               # ext k -> outcome reported
         slot_out = {}
         claimed = set()
+        op_started = set()         # coroutines started by `startop` (bound to a future their own frame owns)
+        op_cb, op_dead = {}, {}    # coroutine -> [(outcome seen by the completion callback, line)] / [(ready|pending, line)]
         started_top = {}           # coroutine -> line of the successful top-level start
         never_start = set()        # dropped unstarted at top level
         created_top = set()
@@ -293,6 +295,12 @@ class AsyncSuite(Suite):
                 m = re.match(r"X(\d+)=(.*)$", e)
                 if m:
                     ext_out[int(m.group(1))] = (m.group(2), n)
+                m = re.match(r"O(\d+)=(.*)$", e)
+                if m:
+                    op_cb.setdefault(int(m.group(1)), []).append((m.group(2), n))
+                m = re.match(r"~o(\d+)=(.*)$", e)
+                if m:
+                    op_dead.setdefault(int(m.group(1)), []).append((m.group(2), n))
                 m = re.match(r"s(\d+)\.(\d+):([cx])(\d+)=(.*)$", e)
                 if m:
                     saws.append((int(m.group(1)), int(m.group(2)), m.group(3), int(m.group(4)), m.group(5), n))
@@ -310,7 +318,7 @@ class AsyncSuite(Suite):
                 if w[0] == "drop":
                     never_start.add(i)
                     consumed.add(i)
-                elif w[0] == "startp":
+                elif w[0] in ("startp", "startpm"):
                     k = int(w[2])
                     ok = head[1] == "1"
                     if k in claimed and ok:
@@ -330,6 +338,10 @@ class AsyncSuite(Suite):
                     if w[0] in ("start", "fut", "fcoro", "pool"):
                         slot_of[nslots] = i
                         nslots += 1
+                    if w[0] == "startop":
+                        op_started.add(i)
+                        if len(head) < 2 or head[1] != "1":
+                            msgs.append("claimed-promise: start(promise) refused the fresh promise of the operation of %d" % i)
                     if w[0] == "join":
                         claimed.update(range(64))
                         if len(head) > 1 and result.get(i) != head[1]:
@@ -383,6 +395,18 @@ class AsyncSuite(Suite):
                     msgs.append("delivery: future of coroutine %d holds %s but the body produced %s" % (i, o, result.get(i)))
                 if first_line.get("r%d" % i, -1) > n:
                     msgs.append("delivery: future of coroutine %d ready before the body ended" % i)
+        for i in sorted(op_started):
+            cbs, dead = op_cb.get(i, []), op_dead.get(i, [])
+            if any(d[0] != "ready" for d in dead):
+                msgs.append("delivery: the frame of coroutine %d - the last owner of the future it was bound to - was destroyed "
+                            "before the result was delivered (future pending at destruction, callback calls so far: %d)" % (
+                                i, sum(1 for c in cbs if not c[0].endswith("!late"))))
+            elif len(cbs) != 1 or len(dead) != 1:
+                msgs.append("delivery: completion callback of the operation of coroutine %d called %d times, operation destroyed %d times" % (i, len(cbs), len(dead)))
+            elif cbs[0][0] != result.get(i):
+                msgs.append("delivery: completion callback of coroutine %d saw %s but the body produced %s" % (i, cbs[0][0], result.get(i)))
+            elif cbs[0][1] > dead[0][1]:
+                msgs.append("delivery: completion callback of coroutine %d called after its operation died" % i)
         for k, i in ext_bound.items():
             if k not in ext_out:
                 msgs.append("delivery: promise %d bound to coroutine %d never resolved" % (k, i))
